@@ -52,7 +52,7 @@ def toF64 : Num → F64
 def ofF64 (f : F64) : Num :=
   if f.fractIsZero then
     if F64.le F64.zero f && F64.lt f (F64.ofNat (2 ^ 64 - 1)) then pos f.toU64
-    else if F64.lt f F64.zero && F64.lt (F64.ofInt (-(2 ^ 63))) f then neg f.toI64
+    else if F64.lt f F64.zero && F64.le (F64.ofInt (-(2 ^ 63))) f then neg f.toI64
     else flt f
   else flt f
 
